@@ -6,6 +6,8 @@ import time
 import vlib
 from vlib import log
 
+PROPS = ["C02", "C07"]
+
 ASSUME = [
     "sequential consistency at the granularity of the hooked steps (weak-memory reorderings below that are not explored)",
     "tokio unbounded mpsc is FIFO and try_recv after close drains what was sent before the close",
